@@ -82,7 +82,7 @@ def doU : P String := do
     let tv := unwhitenedTrainVar Kzx Kxx Ki R
     pure <| reply [sh code.mean, sh code.cov, sh cf.mean, sh cf.cov, shS resid, shV tv,
       shS (klRat Pi S d), shO (if hasS = 1 then det? S else none), shO (det? Pr), shS (quadForm Pi d),
-      shS (klRat Pci S d), shO (det? Pc), shS (quadForm Pci d), shS 0, shS (εd - ε)]
+      shS (klRat Pci S d), shO (det? Pc), shS (quadForm Pci d), shS 0, shS (εd - ε), shV tv, sh code.mean]
   | _, _, _, _ => pure "fail singular"
 
 /-- generic KL parts of `N(m,S)` (or a point mass at `m`) against `N(μ, P)` -/
